@@ -10,7 +10,7 @@ from ..pm import src
 from ..q import FA, call_name, compare_parts, guard_facts, walk_no_nested
 from ..pat import find_expr, find_stmt, match_expr, match_stmt
 
-TECHNIQUE = "def-use on the returned samples/indices, structural match of the two resampling branches against the statement (R-SIB), shift-degree typing of the three effective-sample-size implementations (R-DEG)"
+TECHNIQUE = "def-use on the returned samples/indices, structural match of the two resampling branches against the statement (R-SIB), shift-degree typing of the three effective-sample-size implementations (R-DEG); log-space algebra (sa/lsa.py) on path summaries; R-ALIAS"
 
 
 def stmts_in_order(node):
